@@ -231,6 +231,24 @@ def spreading_is_serial(ctx, module):
                 ctx.nfail += 1
     if n == 0:
         raise RuntimeError("no spreading kernel found in " + module)
+    # every code variant the generator produces over marker counts 1..1100 and 2^k-1..2^k+1: nothing numba-parallel in its closure
+    from checks.common import size_variants
+
+    dim = 3 if module.endswith("3D") else 2
+    gen = getattr(mod, f"generate_lagrangian_to_eulerian_grid_interpolation_kernel_{dim}d")
+    sizes = list(range(1, 1101)) + [2 ** k + d for k in range(11, 14) for d in (-1, 0, 1)]
+    for nc in (1, dim):
+        for nv in size_variants(lambda n_: gen(num_lag_nodes=n_, interp_kernel_width=2, n_components=nc), sizes):
+            k = gen(num_lag_nodes=nv, interp_kernel_width=2, n_components=nc)
+            k = getattr(k, "py_func", k)
+            bad = []
+            for cname, cell in zip(k.__code__.co_freevars, k.__closure__ or ()):
+                v = cell.cell_contents
+                if (getattr(v, "__module__", "") or "").startswith("numba") and getattr(v, "__name__", "") in ("prange", "pndindex", "parfor"):
+                    bad.append(cname)
+            ctx.claims.append(Claim(f"serial_marker_loop:code_variant(markers>={nv},components={nc})", "unsat" if not bad else "sat", {}, trivial=False))
+            if bad:
+                ctx.nfail += 1
 
 
 _GEN_HANDLES: dict = {}
